@@ -11,6 +11,7 @@ LOCAL EV == INSTANCE CelEval
 LOCAL BF == INSTANCE CelBuiltins
 LOCAL NL == INSTANCE CelNumLit
 LOCAL DU == INSTANCE CelDuration
+LOCAL TM == INSTANCE CelTime
 LOCAL ZZ == INSTANCE BigInt
 LOCAL NM64 == INSTANCE Num64
 
@@ -35,6 +36,15 @@ Expected(r) ==
     [] r.op = "durparse" -> DU!DurationFn(r.a)
     [] r.op = "durrt" -> IF NM64!InI64(r.a.n) THEN R(VBool(TRUE)) ELSE D(R(VBool(TRUE)))     \* duration(string(d)) == d
     [] r.op = "durrt2" -> IF NM64!InI64(r.a.n) THEN R(r.a) ELSE D(R(r.a))
+    [] r.op = "tsparse" -> TM!TimestampFn(r.a)
+    [] r.op \in {"acc:getFullYear", "acc:getMonth", "acc:getDayOfYear", "acc:getDayOfMonth", "acc:getDate", "acc:getDayOfWeek",
+                 "acc:getHours", "acc:getMinutes", "acc:getSeconds", "acc:getMilliseconds"} ->
+         TM!Accessor(CHOOSE n \in TM!Accessors : r.op = "acc:" \o n, r.a)
+    [] r.op = "tsstr" -> R(VStr(<< >>))            \* handled by TsStrMatches
+    [] r.op = "tsrt" -> IF TM!InRange(r.a.n) THEN R(VBool(TRUE)) ELSE D(R(VBool(TRUE)))          \* timestamp(string(t)) == t
+    [] r.op \in {"tslaw1", "tslaw2"} ->                                                          \* t + d - d == t, (t + d) - t == d
+         LET s == TM!PlusDur(r.a, r.b, 1) IN
+         IF s.k = "v" /\ ~s.dev THEN R(VBool(TRUE)) ELSE (IF s.dev THEN D(s) ELSE s)
     [] r.op = "sizeadd" ->       \* size is additive over + (strings: pinned for ASCII text)
          LET sa == BF!Size(r.a) sb == BF!Size(r.b) IN
          IF sa.dev \/ sb.dev THEN D(R(VBool(TRUE))) ELSE R(VBool(TRUE))
@@ -46,14 +56,18 @@ CmpMatches(r) ==
   \/ (c \in {"un", "inc"} /\ r.out.k = "cmp" /\ r.out.v = "none")
   \/ (r.a.t \in {"null", "bytes"} /\ r.out.k = "cmp")                \* ordering of null / bytes is not pinned
 
+\* string(timestamp): any RFC 3339 spelling that denotes the same instant at the same offset
+TsStrMatches(r) == \/ ~TM!InRange(r.a.n)
+                   \/ (r.out.k = "v" /\ r.out.v.t = "str" /\ TM!Denotes(r.out.v.cp, r.a))
 Matches(r) ==
   IF r.out.k \notin {"v", "e", "cmp"} THEN FALSE                     \* panic / timeout
   ELSE IF r.op = "hcmp" THEN CmpMatches(r)
+  ELSE IF r.op = "tsstr" THEN TsStrMatches(r)
   ELSE LET x == Expected(r) IN
        \/ x.dev
        \/ (x.k = "v" /\ r.out.k = "v" /\ Same(x.v, r.out.v))
        \/ (x.k = "e" /\ r.out.k = "e" /\ r.out.c \in x.cs)
-IsDev(r) == r.op # "hcmp" /\ Expected(r).dev
+IsDev(r) == r.op \notin {"hcmp", "tsstr"} /\ Expected(r).dev
 
 Init == l = 1 /\ bad = << >> /\ ndev = 0
 Next == /\ l <= Len(Rec)
